@@ -303,3 +303,20 @@ Definition string_locale_match (groups : list (N * list N)) (defs : list (N * pv
   locale_match (build_arms groups (rev (map (fun d => (fst d, gen_string (snd d))) defs))) l.
 Definition literal_locale_match (groups : list (N * list N)) (defs : list (N * lit)) (l : N) : option lit :=
   locale_match (build_arms groups defs) l.
+
+(** ** plurals: [plurals::to_token_stream] (view) and [plurals::as_string_impl] (string / display) both emit
+    `match get_plural_rules(locale, <rule type of the key>).category_for(count) { form_1 => v_1, ..., _ => other }`.
+    [category rule] is the category of the current (locale, count) under a rule type (ICU / CLDR: a parameter);
+    the written forms are keyed by category (a BTreeMap: at most one arm per category). *)
+Section Plural.
+  Variables F R : Type.
+  Variable form_eqb : F -> F -> bool.
+  Variable category : R -> F.
+  Definition plural_select {V} (rule : R) (forms : list (F * V)) (other : V) : V :=
+    match find (fun fv => form_eqb (fst fv) (category rule)) forms with
+    | Some fv => snd fv
+    | None => other
+    end.
+End Plural.
+Definition forms_view {F} (forms : list (F * pv)) : list (F * tv) := map (fun a => (fst a, gen_view (snd a))) forms.
+Definition forms_string {F} (forms : list (F * pv)) : list (F * ts) := map (fun a => (fst a, gen_string (snd a))) forms.
